@@ -26,6 +26,24 @@ CLAIMED = {
         "Trusted: vlib/refsvg/geom.py interpreter and arcref (self-tested). Moveto-only subpaths are not compared; a shorthand directly after a zero-length (omitted) arc is fenced as spec-ambiguous; degenerate (zero-size) rect/circle/ellipse are only required to enclose nothing inside their box.",
         "DESIGN.md 2/C09",
     ),
+    "C02": (
+        "differential rendering: Hypothesis-generated documents are converted and both source and result are evaluated by an independent point-sampling SVG evaluator (vlib/refsvg/render.py: own XML/cascade/transform/use/viewport/clip/compositing semantics, no Skia); ordered paint stack and composited colour compared at points outside the 0.4% edge band",
+        "Exploration. Thousands of generated documents per run over the structural grammar (shapes, paths, nested groups, transform lists, defs/use, nested svg viewports, display:none), ~300 sample points each incl. points 2 and 4 epsilon off every source and output edge. Sampling of an infinite input space: finds placement/ordering/instancing errors larger than ~2 epsilon, proves nothing.",
+        "Trusted: vlib/refsvg (self-tested on hand-computed scenes); a conversion that raises is a rejection, not a violation. A mismatch that disappears on the polygonal twin of the same document (curves flattened to lines, everything else kept) is attributed to skia-pathops' curve handling (known finding ENGINE, counted in evidence) and not reported; wrapper-logic errors show on the twin too.",
+        "DESIGN.md 2/C02",
+    ),
+    "C03": (
+        "differential rendering: Hypothesis-generated documents are converted and both source and result are evaluated by an independent point-sampling SVG evaluator (vlib/refsvg/render.py: own XML/cascade/transform/use/viewport/clip/compositing semantics, no Skia); ordered paint stack and composited colour compared at points outside the 0.4% edge band",
+        "Exploration. Generated documents with 1-3 clipPaths (rule-sensitive children: rings, stars, self-intersecting paths; clip-rule per child; transforms on clipPath and children; clipPath clipped by another; clip-path on shapes, groups, use, stacked) compared by differential rendering; output must not mention clips. Sampling, not proof.",
+        "Trusted: vlib/refsvg (self-tested on hand-computed scenes); a conversion that raises is a rejection, not a violation. A mismatch that disappears on the polygonal twin of the same document (curves flattened to lines, everything else kept) is attributed to skia-pathops' curve handling (known finding ENGINE, counted in evidence) and not reported; wrapper-logic errors show on the twin too. Fences: clipPathUnits=objectBoundingBox, clip-path on clipPath children, display:none clipPath children.",
+        "DESIGN.md 2/C03",
+    ),
+    "C05": (
+        "differential rendering: Hypothesis-generated documents are converted and both source and result are evaluated by an independent point-sampling SVG evaluator (vlib/refsvg/render.py: own XML/cascade/transform/use/viewport/clip/compositing semantics, no Skia); ordered paint stack and composited colour compared at points outside the 0.4% edge band",
+        "Exploration. Generated documents with overlapping geometry where shapes, groups, root and use set random subsets of fill/fill-opacity/opacity/fill-rule/display via attribute and/or style (conflicts: style must win); composited RGBA (1.5/255) and paint stack compared. Sampling, not proof.",
+        "Trusted: vlib/refsvg (self-tested on hand-computed scenes); a conversion that raises is a rejection, not a violation. A mismatch that disappears on the polygonal twin of the same document (curves flattened to lines, everything else kept) is attributed to skia-pathops' curve handling (known finding ENGINE, counted in evidence) and not reported; wrapper-logic errors show on the twin too. Strokes are not part of this campaign (C04 covers stroke paint/opacity).",
+        "DESIGN.md 2/C05",
+    ),
 }
 
 NOT_YET = "check not built yet in this round (work in progress; see DESIGN.md section 5 for the order of work)"
